@@ -83,6 +83,28 @@ def _opaque_value_cases_one(rng, cfg_note):
         yield Case("directed:noncompare-hash-flag", None, None, True, "Holder(hnote=field(compare=False, hash=True)).replace(hnote=…)" + cfg_note,
                    oracle_fail=fh, sig="copy|directed|noncompare-hash-flag")
         del hx, hr
+        # a node that was REPLACED by a successor which keeps its id (only a non-comparable property differs) is duplicated
+        # afterwards, alone and as a child: the copy is a copy of THAT node (its own property values), not of the
+        # node that owns the id now
+        for where in ("alone", "child", "tuple-item"):
+            old = zoo.Leaf(v=rng.randrange(100), tag="before")
+            holder = {"alone": None, "child": zoo.Un(old), "tuple-item": zoo.Tup((zoo.Leaf(v=1), old))}[where]
+            succ = old.replace(tag="after")
+            fr = None
+            if succ.id != old.id:
+                fr = None       # the id rule is examined elsewhere; without the takeover there is nothing to check here
+            else:
+                dd0 = (holder or old).duplicate()
+                copy = dd0 if holder is None else [i.node for i in dd0.dfs() if type(i.node) is zoo.Leaf and i.node.v == old.v][-1]
+                if copy.tag != "before":
+                    fr = f"duplicate() of a node whose id was taken over by its replacement copied tag={copy.tag!r}, the node holds 'before'"
+                elif old.tag != "before" or succ.tag != "after":
+                    fr = "duplicate() changed the original or its successor"
+                del dd0, copy
+            yield Case("directed:duplicate-after-takeover", None, None, True,
+                       f"x=Leaf(tag='before') {where}; x.replace(tag='after') keeps the id; duplicate() of the old object" + cfg_note,
+                       oracle_fail=fr, sig="copy|directed|duplicate-after-takeover")
+            del old, holder, succ
         t, u, w = _Opaque(rng.randrange(100)), _Opaque(rng.randrange(100)), _Opaque(rng.randrange(100))
         inner = C14Holder(key=(u, 1), payload=[w])            # values nested in a tuple / a (non-comparable) list
         x = C14Holder(key=t, payload=u, kid=inner, kids=(C14Holder(key=w), C14Holder(payload=t)))
